@@ -810,9 +810,12 @@ def search(ctx, fails):
         for t in range(60):
             N = rnd.randrange(5, 120); max_N = rnd.choice([7, 30, 200000])
             seen = []
+            cnt = [0]
 
             def phsp(n):
-                return tf.constant(np.arange(n, dtype=np.float64) + 1000.0 * len(seen))
+                a = np.arange(cnt[0], cnt[0] + n, dtype=np.float64)
+                cnt[0] += n
+                return tf.constant(a)
 
             def amp(d):
                 w = np.random.RandomState(len(seen)).uniform(0.01, 1 + len(seen), size=int(d.shape[0]))
